@@ -60,6 +60,8 @@ def run(ctx, model_ok):
     corpus = lib.os.path.join(lib.VERIF, "corpus", "C06.json")
     if lib.os.path.exists(corpus):
         cases += json.load(open(corpus))
+    cases += cc.enumerated_cases()
+    n += 64
     while len(cases) < n:
         c = cc.gen_case(rng, sys_level=(rng.random() < 0.3))
         if cc.count_sites(c["items"]) >= 1:
@@ -98,7 +100,7 @@ def run(ctx, model_ok):
     return {
         "evaluations": len(cases),
         "distinct_nontrivial": len({lib.digest(c) for c in cases if cc.count_ctx(c["items"]) >= 2 and cc.count_sites(c["items"]) >= 2}),
-        "rule": "random history trees over 1-3 tracers (30% of histories with system-trace tracers / a pre-installed trace function): enabled/disabled "
+        "rule": "all 64 three-deep nests of enabled / disabled contexts of two tracers with sites after every exit; random history trees over 1-3 tracers (30% of histories with system-trace tracers / a pre-installed trace function): enabled/disabled "
                 "contexts, exec-style contexts, executions of top-level / function / lambda / loop-in-function code compiled earlier, raises, try blocks, "
                 "depth <=5; non-trivial = >=2 contexts and >=2 executed sites; distinct by sha1",
         "samples": [cases[0]], "traces_validated": validated,
